@@ -403,6 +403,17 @@ class Netlist:
     def ff_signals(self):
         return [(self._sig_obj[i], ci) for i, ci in self._ff_by_sig.items()]
 
+    def state_in_submodule(self, sub_name):
+        """state elements (cell indices) that live in the direct submodule `sub_name` of the top module, or below it"""
+        mods = self.nl.modules
+        out = []
+        for sv in self.state:
+            mi = sv.cell.module_idx
+            name = mods[mi].name
+            if len(name) >= 2 and name[1] == sub_name:
+                out.append(sv.idx)
+        return out
+
     @property
     def rst_var(self):
         return self.in_vars.get("rst")
